@@ -327,7 +327,15 @@ def tyrving(ctx, repo):
                 for x in pts:
                     env = {vname: x, 'levels': L, 'multipliers': M}
                     try:
-                        env['diffs'] = Fd.expr(defs['diffs'], env)
+                        # the arithmetic temporaries of the method, in source order (diffs and whatever else the formula names)
+                        for st_ in sp.body:
+                            if isinstance(st_, ast.Assign) and len(st_.targets) == 1 and isinstance(st_.targets[0], ast.Name) \
+                                    and st_.targets[0].id not in (vname, 'levels', 'multipliers'):
+                                try:
+                                    env[st_.targets[0].id] = Fd.expr(st_.value, env)
+                                except Exception:
+                                    if st_.targets[0].id == 'diffs':
+                                        raise
                         vals.append(Fd.expr(inner, env))
                     except Exception as e:
                         raise AnalysisError('stav_points: cannot evaluate the piecewise expression exactly: %s' % e)
